@@ -2,7 +2,10 @@
   Ohsl.Lemmas.SolveSound — soundness of the dense direct solver `Mat.solveBasic`
   (Gaussian elimination with partial pivoting + back substitution) over an exact field.
 
-  Class (E): `K` a linearly ordered field, `divM` fails on an exact zero divisor.
+  Class (E): `K` a field whose `divM` fails exactly on a zero divisor (`Alg.DivLaw`); for the LU
+  part the pivot comparison `lt (mag a) (mag b)` compares a size in a linear order
+  (`Alg.PivotLaws`).  A linearly ordered field with `Alg.scalarExt` is an instance, and so is the
+  model's complex type `Cx ℝ` (`Ohsl/Lemmas/CxField.lean`).
 
   Contents
   * `forM'_ok_inv`          partial-correctness loop rule (success is a hypothesis)
@@ -222,10 +225,10 @@ end Generic
 
 /-! ### exact-field part -/
 section Exact
-variable [Field K] [LinearOrder K]
-attribute [local instance] Ohsl.Alg.scalarExt
+variable [Field K]
 
-theorem elimRow_spec {m : Mat K} {x : Array K} {n k i : Nat} (hm : WFn m n) (hx : x.size = n)
+theorem elimRow_spec [BEq K] [ScalarExt K] [DecidableEq K] [Alg.DivLaw K]
+    {m : Mat K} {x : Array K} {n k i : Nat} (hm : WFn m n) (hx : x.size = n)
     (hk : k < n) (hi : i < n) (hki : k ≠ i) {m' : Mat K} {x' : Array K}
     (h : elimRow k (m, x) i = .ok (m', x')) :
     ent m k k ≠ 0 ∧ WFn m' n ∧ x'.size = n ∧
@@ -233,7 +236,7 @@ theorem elimRow_spec {m : Mat K} {x : Array K} {n k i : Nat} (hm : WFn m n) (hx 
         if a = i ∧ k ≤ b then ent m i b - (ent m i k / ent m k k) * ent m k b else ent m a b) ∧
     (∀ a, vf x' a = if a = i then vf x i - (ent m i k / ent m k k) * vf x k else vf x a) := by
   unfold elimRow at h
-  simp only [hm.get hi hk, hm.get hk hk, bind, Except.bind, Alg.divM_eq] at h
+  simp only [hm.get hi hk, hm.get hk hk, bind, Except.bind, Alg.divM_law] at h
   by_cases hz : ent m k k = 0
   · simp [hz] at h
   refine ⟨hz, ?_⟩
@@ -291,7 +294,8 @@ theorem elimRow_spec {m : Mat K} {x : Array K} {n k i : Nat} (hm : WFn m n) (hx 
   · intro a
     rw [vf_set _ hxi]
 
-theorem partialPivot_spec {m : Mat K} {x : Array K} {n k : Nat} (hm : WFn m n) (hx : x.size = n)
+theorem partialPivot_spec [BEq K] [ScalarExt K]
+    {m : Mat K} {x : Array K} {n k : Nat} (hm : WFn m n) (hx : x.size = n)
     (hk : k < n) {m' : Mat K} {x' : Array K} (h : partialPivot m x k = .ok (m', x')) :
     ∃ p, p < n ∧ (p = 0 ∨ k ≤ p) ∧ WFn m' n ∧ x'.size = n ∧
       (∀ a b, a < n → b < n →
@@ -371,7 +375,8 @@ theorem backsolve_inner {m : Mat K} {n k : Nat} (hm : WFn m n) (hk : k < n) (s :
           rw [hv a]; simp [hak])
   exact ⟨s2, h2, hP.1, hP.2⟩
 
-theorem backsolve_spec {m : Mat K} {n : Nat} {x x' : Array K} (hm : WFn m n) (hx : x.size = n)
+theorem backsolve_spec [BEq K] [ScalarExt K] [DecidableEq K] [Alg.DivLaw K]
+    {m : Mat K} {n : Nat} {x x' : Array K} (hm : WFn m n) (hx : x.size = n)
     (hn : 1 ≤ n) (h : backsolve m x = .ok x') :
     x'.size = n ∧ ∀ i, i < n → BS m n x x' i := by
   unfold backsolve at h
@@ -379,7 +384,7 @@ theorem backsolve_spec {m : Mat K} {n : Nat} {x x' : Array K} (hm : WFn m n) (hx
   have hl : n - 1 < n := by omega
   have hu : usub n 1 = .ok (n - 1) := by simp [usub, hn]
   have hlx : n - 1 < x.size := by omega
-  simp only [hu, aget_vf hlx, hm.get hl hl, bind, Except.bind, Alg.divM_eq] at h
+  simp only [hu, aget_vf hlx, hm.get hl hl, bind, Except.bind, Alg.divM_law] at h
   by_cases hz : ent m (n - 1) (n - 1) = 0
   · simp [hz] at h
   simp only [hz, if_false, aset_ok _ hlx] at h
@@ -615,7 +620,8 @@ def BadP (n k : Nat) (e : Nat → Nat → K) : Prop :=
   e 0 0 = 0 ∧ ∀ i, k < i → i < n → e i 0 = 0
 
 /-- the row loop of one elimination step (pivot row `k`) -/
-theorem elimLoop_spec {n k : Nat} (hk : k < n) (a : Nat → Nat → K) (b : Nat → K)
+theorem elimLoop_spec [BEq K] [ScalarExt K] [DecidableEq K] [Alg.DivLaw K]
+    {n k : Nat} (hk : k < n) (a : Nat → Nat → K) (b : Nat → K)
     {m m' : Mat K} {x x' : Array K} (hm : WFn m n) (hx : x.size = n)
     (h : forM' (k + 1) m.rows (m, x) (elimRow k) = .ok (m', x')) :
     WFn m' n ∧ x'.size = n ∧
@@ -704,7 +710,8 @@ def Bad (n k : Nat) (e : Nat → Nat → K) : Prop :=
 /-- outer invariant of `gauss_with_pivot`, at its exit: either the fallback swap with row 0
     happened (`Bad`, the back substitution will then fail), or the matrix is in echelon form and
     the reduced system has the same solutions as the original one -/
-theorem gauss_spec {n : Nat} (hn : 1 ≤ n) {A m' : Mat K} {b x' : Array K} (hA : WFn A n)
+theorem gauss_spec [BEq K] [ScalarExt K] [DecidableEq K] [Alg.DivLaw K]
+    {n : Nat} (hn : 1 ≤ n) {A m' : Mat K} {b x' : Array K} (hA : WFn A n)
     (hb : b.size = n) (h : gaussWithPivot A b = .ok (m', x')) :
     WFn m' n ∧ x'.size = n ∧
       (Bad n (n - 1) (ent m') ∨
@@ -828,7 +835,8 @@ theorem tri_unique {n : Nat} {e : Nat → Nat → K} {y z z' : Nat → K}
 
 /-- what a successful `solve_basic` has established: a triangular system with non-zero
     diagonal, equivalent to the original one, which the returned vector solves row by row -/
-theorem solveBasic_char {n : Nat} (hn : 1 ≤ n) {A : Mat K} {b x : Array K} (hA : WFn A n)
+theorem solveBasic_char [BEq K] [ScalarExt K] [DecidableEq K] [Alg.DivLaw K]
+    {n : Nat} (hn : 1 ≤ n) {A : Mat K} {b x : Array K} (hA : WFn A n)
     (hb : b.size = n) (h : solveBasic A b = .ok x) :
     ∃ (m' : Mat K) (x' : Array K), x.size = n ∧
       (∀ i j, i < n → j < i → ent m' i j = 0) ∧ (∀ i, i < n → ent m' i i ≠ 0) ∧
@@ -861,14 +869,16 @@ theorem solveBasic_char {n : Nat} (hn : 1 ≤ n) {A : Mat K} {b x : Array K} (hA
 /-- **Soundness of `solve_basic`** in terms of the canonical entry functions: whenever a value
     is returned it has length `n` and solves the system. No pivot hypothesis: a vanishing pivot
     makes a division fail, which is the error branch. -/
-theorem solveBasic_sound_ent {n : Nat} (hn : 1 ≤ n) {A : Mat K} {b x : Array K} (hA : WFn A n)
+theorem solveBasic_sound_ent [BEq K] [ScalarExt K] [DecidableEq K] [Alg.DivLaw K]
+    {n : Nat} (hn : 1 ≤ n) {A : Mat K} {b x : Array K} (hA : WFn A n)
     (hb : b.size = n) (h : solveBasic A b = .ok x) :
     x.size = n ∧ Sol n (ent A) (vf b) (vf x) := by
   obtain ⟨m', x', hxs, _, _, hs, hsol⟩ := solveBasic_char hn hA hb h
   exact ⟨hxs, (hs _).1 hsol⟩
 
 /-- a successful `solve_basic` certifies that the system has no other solution -/
-theorem solveBasic_unique_ent {n : Nat} (hn : 1 ≤ n) {A : Mat K} {b x : Array K} (hA : WFn A n)
+theorem solveBasic_unique_ent [BEq K] [ScalarExt K] [DecidableEq K] [Alg.DivLaw K]
+    {n : Nat} (hn : 1 ≤ n) {A : Mat K} {b x : Array K} (hA : WFn A n)
     (hb : b.size = n) (h : solveBasic A b = .ok x) (z : Nat → K)
     (hz : Sol n (ent A) (vf b) z) : ∀ j, j < n → z j = vf x j := by
   obtain ⟨m', x', _, hg, hd, hs, hsol⟩ := solveBasic_char hn hA hb h
@@ -937,26 +947,29 @@ theorem LURow.elim {n : Nat} {pa lu lu' : Nat → Nat → K} {j i : Nat} (hi : i
 
 /-- pivot search of the LU: the returned row is at or below the diagonal, and a zero maximum
     means the column is zero on and below the diagonal -/
-theorem luPivot_spec [IsStrictOrderedRing K] {m : Mat K} {n i : Nat} (hm : WFn m n) (hi : i < n)
+theorem luPivot_spec [BEq K] [ScalarExt K] [DecidableEq K] [Alg.PivotLaws K]
+    {m : Mat K} {n i : Nat} (hm : WFn m n) (hi : i < n)
     {maxA : K} {imax : Nat} (h : luPivot m i = .ok (maxA, imax)) :
     i ≤ imax ∧ (maxA = 0 → ∀ k, i ≤ k → k < n → ent m k i = 0) := by
   unfold luPivot at h
   rw [hm.2.1] at h
   have key := forM'_ok_inv
-    (fun t (s : K × Nat) => i ≤ s.2 ∧ 0 ≤ s.1 ∧ ∀ k, i ≤ k → k < t → |ent m k i| ≤ s.1)
+    (fun t (s : K × Nat) => i ≤ s.2 ∧ ∃ v : K, s.1 = ScalarExt.mag v ∧
+      ∀ k, i ≤ k → k < t → Alg.PivotLaws.size (ent m k i) ≤ Alg.PivotLaws.size v)
     i n ((0 : K), i) (maxA, imax) _ (by omega) ?init ?step h
   case init =>
-    exact ⟨Nat.le_refl _, le_refl _, by intro k h1 h2; omega⟩
+    exact ⟨Nat.le_refl _, 0, Alg.PivotLaws.mag_zero.symm, by intro k h1 h2; omega⟩
   case step =>
-    intro t s s1 ht1 ht2 ⟨h1, h0, h2⟩ hf
+    intro t s s1 ht1 ht2 ⟨h1, v, hv, h2⟩ hf
     obtain ⟨mx, im⟩ := s
-    simp only [hm.get ht2 hi, bind, Except.bind, pure, Except.pure, Alg.lt_eq,
-      Alg.mag_eq_abs] at hf
-    by_cases hlt : mx < |ent m t i|
+    simp only at hv
+    subst hv
+    simp only [hm.get ht2 hi, bind, Except.bind, pure, Except.pure, Alg.PivotLaws.lt_mag] at hf
+    by_cases hlt : Alg.PivotLaws.size v < Alg.PivotLaws.size (ent m t i)
     · simp only [hlt, decide_true, if_true] at hf
       injection hf with hf
       subst hf
-      refine ⟨ht1, abs_nonneg _, ?_⟩
+      refine ⟨ht1, ent m t i, rfl, ?_⟩
       intro k hk1 hk2
       by_cases hkt : k = t
       · subst hkt; exact le_refl _
@@ -964,21 +977,23 @@ theorem luPivot_spec [IsStrictOrderedRing K] {m : Mat K} {n i : Nat} (hm : WFn m
     · simp only [hlt, decide_false] at hf
       injection hf with hf
       subst hf
-      refine ⟨h1, h0, ?_⟩
+      refine ⟨h1, v, rfl, ?_⟩
       intro k hk1 hk2
       by_cases hkt : k = t
       · subst hkt; exact not_lt.1 hlt
       · exact h2 k hk1 (by omega)
-  obtain ⟨k1, _, k3⟩ := key
+  obtain ⟨k1, v, hv, k3⟩ := key
   refine ⟨k1, ?_⟩
   intro hz k hk1 hk2
+  have hv0 : v = 0 := (Alg.mag_eq_zero_iff v).1 (hv.symm.trans hz)
   have := k3 k hk1 hk2
-  simp only [hz] at this
-  exact abs_nonpos_iff.1 this
+  rw [hv0] at this
+  exact (Alg.size_le_zero_iff _).1 this
 
 /-- elimination of row `j` below pivot `i` in place: the multiplier replaces entry `(j,i)`,
     the entries to the right are updated, nothing else changes -/
-theorem luElimRow_spec {m m' : Mat K} {n i j : Nat} (hm : WFn m n) (hi : i < n) (hj : j < n)
+theorem luElimRow_spec [BEq K] [ScalarExt K] [DecidableEq K] [Alg.DivLaw K]
+    {m m' : Mat K} {n i j : Nat} (hm : WFn m n) (hi : i < n) (hj : j < n)
     (hij : i < j) (h : luElimRow i m j = .ok m') :
     ent m i i ≠ 0 ∧ WFn m' n ∧
     ∀ a c, a < n → c < n → ent m' a c =
@@ -987,7 +1002,7 @@ theorem luElimRow_spec {m m' : Mat K} {n i j : Nat} (hm : WFn m n) (hi : i < n) 
          else if i < c then ent m j c - (ent m j i / ent m i i) * ent m i c else ent m j c)
       else ent m a c := by
   unfold luElimRow at h
-  simp only [hm.get hi hi, hm.get hj hi, bind, Except.bind, Alg.divM_eq] at h
+  simp only [hm.get hi hi, hm.get hj hi, bind, Except.bind, Alg.divM_law] at h
   by_cases hz : ent m i i = 0
   · simp [hz] at h
   refine ⟨hz, ?_⟩
@@ -1056,7 +1071,8 @@ theorem luElimRow_spec {m m' : Mat K} {n i j : Nat} (hm : WFn m n) (hi : i < n) 
   · simp only [haj, if_false]
 
 /-- the row loop of one LU column step -/
-theorem luElimLoop_spec {l l' : Mat K} {n i : Nat} (pa : Nat → Nat → K) (hl : WFn l n)
+theorem luElimLoop_spec [BEq K] [ScalarExt K] [DecidableEq K] [Alg.DivLaw K]
+    {l l' : Mat K} {n i : Nat} (pa : Nat → Nat → K) (hl : WFn l n)
     (hi : i < n) (hrow : ∀ r, r < n → LURow n pa (ent l) r (min r i))
     (h : forM' (i + 1) l.rows l (luElimRow i) = .ok l') :
     WFn l' n ∧ ∀ r, r < n → LURow n pa (ent l') r (min r (i + 1)) := by
@@ -1134,7 +1150,7 @@ structure LUInv (n : Nat) (a : Nat → Nat → K) (y : Nat → K) (i : Nat) (s :
 
 /-- exchanging rows `i ≤ imax` of both the working matrix and the permutation keeps the
     invariant -/
-theorem LUInv.swap {n i imax : Nat} {a : Nat → Nat → K} {y : Nat → K} {s : LU K} {p l : Mat K}
+theorem LUInv.swap [BEq K] [ScalarExt K] {n i imax : Nat} {a : Nat → Nat → K} {y : Nat → K} {s : LU K} {p l : Mat K}
     (hi : i < n) (hge : i ≤ imax) (hs : LUInv n a y i s)
     (hp : swapRows s.perm i imax = .ok p) (hl : swapRows s.lu i imax = .ok l) (pv : Nat) :
     LUInv n a y i { lu := l, perm := p, pivots := pv } := by
@@ -1231,7 +1247,8 @@ theorem LUInv.swap {n i imax : Nat} {a : Nat → Nat → K} {y : Nat → K} {s :
         · intro c hc; rw [hIl.ent_eq hr hc]; simp [h1, h2]
 
 /-- the elimination rows of a column step re-establish the invariant one column further -/
-theorem LUInv.elim {n i : Nat} {a : Nat → Nat → K} {y : Nat → K} {s : LU K} {l' : Mat K}
+theorem LUInv.elim [BEq K] [ScalarExt K] [DecidableEq K] [Alg.DivLaw K]
+    {n i : Nat} {a : Nat → Nat → K} {y : Nat → K} {s : LU K} {l' : Mat K}
     (hi : i < n) (hs : LUInv n a y i s)
     (h : forM' (i + 1) s.lu.rows s.lu (luElimRow i) = .ok l') :
     LUInv n a y (i + 1) { lu := l', perm := s.perm, pivots := s.pivots } := by
@@ -1259,7 +1276,8 @@ theorem LUInv.skip {n i : Nat} {a : Nat → Nat → K} {y : Nat → K} {s : LU K
   · have c2 : min r (i + 1) = min r i := by omega
     rw [c2]; exact hs.row r hr
 
-theorem luStep_spec [IsStrictOrderedRing K] {n i : Nat} {a : Nat → Nat → K} {y : Nat → K}
+theorem luStep_spec [BEq K] [LawfulBEq K] [ScalarExt K] [DecidableEq K] [Alg.PivotLaws K]
+    {n i : Nat} {a : Nat → Nat → K} {y : Nat → K}
     {s s' : LU K} (hi : i < n) (hs : LUInv n a y i s) (h : luStep s i = .ok s') :
     LUInv n a y (i + 1) s' := by
   unfold luStep at h
@@ -1338,7 +1356,8 @@ theorem eye_spec_ss (n : Nat) :
 
 /-- **`lu_decomp_in_place`**: whenever it returns, `P·A = L·U` row by row (`LURow … r r`), and
     the permuted system `P·A z = P·b` has no more solutions than `A z = b`. -/
-theorem luDecomp_spec [IsStrictOrderedRing K] {n : Nat} {A : Mat K} (y : Nat → K) {s : LU K}
+theorem luDecomp_spec [BEq K] [LawfulBEq K] [ScalarExt K] [DecidableEq K] [Alg.PivotLaws K]
+    {n : Nat} {A : Mat K} (y : Nat → K) {s : LU K}
     (hA : WFn A n) (h : luDecomp A = .ok s) : LUInv n (ent A) y n s := by
   unfold luDecomp at h
   have h2 : ¬ A.rows ≠ A.cols := by rw [hA.2.1, hA.2.2]; simp
@@ -1406,7 +1425,7 @@ theorem array_eq_map_vf (v : Array K) : v = ((List.range v.size).map (vf v)).toA
     simp [vf, h1]
 
 /-- `multiply` (matrix · vector) as a finite sum -/
-theorem mulVec_sum {m : Mat K} {n : Nat} (hm : WFn m n) {v : Array K} (hv : v.size = n) :
+theorem mulVec_sum [BEq K] [ScalarExt K] {m : Mat K} {n : Nat} (hm : WFn m n) {v : Array K} (hv : v.size = n) :
     ∃ w, mulVec m v = .ok w ∧ w.size = n ∧
       ∀ r, r < n → vf w r = ∑ t ∈ Finset.range n, ent m r t * vf v t := by
   refine ⟨_, mulVec_spec hm.is v hv, by simp, ?_⟩
@@ -1503,7 +1522,8 @@ theorem sum_upper_ind (f : Nat → K) {t n : Nat} (ht : t < n) :
     simp only [this, if_false]
 
 /-- **Soundness of `solve_lu`** in terms of the canonical entry functions. -/
-theorem solveLU_sound_ent [IsStrictOrderedRing K] {n : Nat} (hn : 1 ≤ n) {A : Mat K}
+theorem solveLU_sound_ent [BEq K] [LawfulBEq K] [ScalarExt K] [DecidableEq K] [Alg.PivotLaws K]
+    {n : Nat} (hn : 1 ≤ n) {A : Mat K}
     {b x : Array K} (hA : WFn A n) (hb : b.size = n) (h : solveLU A b = .ok x) :
     x.size = n ∧ Sol n (ent A) (vf b) (vf x) := by
   unfold solveLU at h
